@@ -9,6 +9,9 @@
 (*  (3) the observed table itself is coherent, whatever the specification  *)
 (*      says: != is the negation of ==, > is < swapped, <= is < or ==,     *)
 (*      >= is > or ==, == is symmetric, and reflexive on identical values. *)
+(*  An event marked "lawsonly" (operands in a representation whose table   *)
+(*  the specification leaves open) is held to (1) and (3) only, less        *)
+(*  reflexivity (an ordered map equals nothing, itself included).          *)
 (***************************************************************************)
 EXTENDS LqRender, Json, TLC, IOUtils
 
@@ -32,15 +35,14 @@ Coherent(t) ==
       /\ x(5) = (x(3) \/ x(1)) /\ y(5) = (y(3) \/ y(1))
       /\ x(6) = (x(4) \/ x(1)) /\ y(6) = (y(4) \/ y(1))
       /\ x(1) = y(1)
-      /\ (Same(t.a, t.b) => x(1))
+      /\ ((Same(t.a, t.b) /\ "lawsonly" \notin DOMAIN t) => x(1))
       /\ x(8) = y(8) /\ x(9) = y(9)
 
 Accept(t) ==
   /\ t.outcome = "ok"
   /\ Len(t.out) = 18
   /\ \A k \in 1..18 : t.out[k] \in {48, 49}
-  /\ Decided(SubSeq(t.out, 1, 9), Want(t.a, t.b))
-  /\ Decided(SubSeq(t.out, 10, 18), Want(t.b, t.a))
+  /\ ("lawsonly" \in DOMAIN t) \/ (Decided(SubSeq(t.out, 1, 9), Want(t.a, t.b)) /\ Decided(SubSeq(t.out, 10, 18), Want(t.b, t.a)))
   /\ Coherent(t)
 
 Init == l = 1
